@@ -1,5 +1,12 @@
-//! Engine `once` (C12): schedule-driven executors on ONE real `breakpad_symbols::Symbolizer`
+//! Engine `once` (C12): schedule-driven executors on real `breakpad_symbols::Symbolizer`s
 //! against the Lean model `MdModel.Once`, plus the property's own oracle on the implementation.
+//! Three kinds of case lines:
+//!   `once run ..`   one Symbolizer, programs of module keys (fill_symbol / walk_frame), see below
+//!   `once req ..`   all request kinds (fill_symbol, walk_frame, get_file_path x FileKind), module
+//!                   identity variants, 0..3 providers behind a real MultiSymbolProvider, per-provider
+//!                   pending_stats()/stats(), executors a/w/j and m (tokio multi-thread, 4 workers)
+//!   `once http ..`  HttpSymbolSupplier::locate_file_internal / locate_symbols against a loopback
+//!                   server that counts requests
 //!
 //! case line:  `once run x:<a|w|j> tasks:<k[w],k[w],..;..> sup:<k=delay:res,..> sched:<n,n,..|->`
 //!   tasks   one program per task: the module keys it looks up in order; a `w` suffix makes that
@@ -677,15 +684,2121 @@ fn all_seqs(n: u64, len: usize, f: &mut dyn FnMut(&[u64])) {
     }
 }
 
+
+// =====================================================================================================
+// request-level cases:  `once req x:<a|w|j|m> mods:.. provs:.. tasks:.. sym:.. file:.. sched:..`
+//   (format: see MdModel/Once.lean). Every provider is ONE real `Symbolizer` around a mock supplier,
+//   seen through a transparent `Spy` (a `SymbolProvider` that delegates and logs what came back);
+//   with `provs:U` the task talks to that provider directly, otherwise to a real
+//   `MultiSymbolProvider` holding the providers in order.
+// =====================================================================================================
+
+use minidump_unwind::{MultiSymbolProvider, SymbolProvider, SymbolStats};
+
+/// the component value that is spelled as the empty string / the nil debug id
+const EMPTY: u64 = 999;
+
+#[derive(Clone, Debug, PartialEq, Eq, PartialOrd, Ord)]
+enum Cf {
+    Absent,
+    Empty,
+    Path(u64, u64),
+}
+
+#[derive(Clone, Debug, PartialEq, Eq, PartialOrd, Ord)]
+struct ModSpec {
+    cf: Cf,
+    ci: Option<u64>,
+    df: Option<u64>,
+    di: Option<u64>,
+}
+
+fn opt_num(s: &str) -> Option<Option<u64>> {
+    if s == "n" {
+        Some(None)
+    } else {
+        s.parse().ok().map(Some)
+    }
+}
+fn show_opt(o: &Option<u64>) -> String {
+    match o {
+        None => "n".into(),
+        Some(n) => n.to_string(),
+    }
+}
+
+impl ModSpec {
+    fn parse(s: &str) -> Option<ModSpec> {
+        let f: Vec<&str> = s.split('.').collect();
+        if f.len() != 4 {
+            return None;
+        }
+        let cf = match f[0] {
+            "a" => Cf::Absent,
+            "e" => Cf::Empty,
+            x => {
+                let (d, l) = x.split_once('_')?;
+                Cf::Path(d.parse().ok()?, l.parse().ok()?)
+            }
+        };
+        Some(ModSpec { cf, ci: opt_num(f[1])?, df: opt_num(f[2])?, di: opt_num(f[3])? })
+    }
+    fn show(&self) -> String {
+        let cf = match &self.cf {
+            Cf::Absent => "a".to_string(),
+            Cf::Empty => "e".to_string(),
+            Cf::Path(d, l) => format!("{d}_{l}"),
+        };
+        format!("{cf}.{}.{}.{}", show_opt(&self.ci), show_opt(&self.df), show_opt(&self.di))
+    }
+    /// the identity of the module as the PROPERTY reads it: code file (a string: none = ""), code id,
+    /// debug file, debug id. Two requests are for the same module iff these four agree.
+    fn ident(&self) -> (String, Option<u64>, Option<u64>, Option<u64>) {
+        (self.code_file_str(), self.ci, self.df, self.di)
+    }
+    fn code_file_str(&self) -> String {
+        match &self.cf {
+            Cf::Absent | Cf::Empty => String::new(),
+            Cf::Path(d, l) => format!("/d{d}/m{l}.so"),
+        }
+    }
+    fn leaf(&self) -> String {
+        match &self.cf {
+            Cf::Absent | Cf::Empty => String::new(),
+            Cf::Path(_, l) => format!("m{l}.so"),
+        }
+    }
+    fn build(&self, version: Option<String>) -> SimpleModule {
+        SimpleModule {
+            base_address: None,
+            size: None,
+            code_file: match &self.cf {
+                Cf::Absent => None,
+                Cf::Empty => Some(String::new()),
+                Cf::Path(..) => Some(self.code_file_str()),
+            },
+            // the value 999 stands for the EMPTY spelling of a component (present, but "" / the nil id): a
+            // module with an empty component is not the module without it
+            code_identifier: self.ci.map(|n| debugid::CodeId::new(if n == EMPTY { String::new() } else { format!("C0DE{n:04X}") })),
+            debug_file: self.df.map(|n| if n == EMPTY { String::new() } else { format!("m{n}.dbg") }),
+            debug_id: self.di.map(|n| {
+                if n == EMPTY {
+                    debugid::DebugId::nil()
+                } else {
+                    debugid::DebugId::from_str(&format!("abcd1234-abcd-1234-abcd-abcd{:08x}-a", n)).unwrap()
+                }
+            }),
+            version,
+        }
+    }
+}
+
+#[derive(Clone, Copy, Debug, PartialEq, Eq)]
+enum Rk {
+    Fill,
+    Walk,
+    File(u8),
+}
+#[derive(Clone, Copy, Debug, PartialEq, Eq)]
+struct Rq {
+    kind: Rk,
+    m: usize,
+}
+fn parse_rq(s: &str) -> Option<Rq> {
+    let (c, rest) = s.split_at(1.min(s.len()));
+    match c {
+        "f" => Some(Rq { kind: Rk::Fill, m: rest.parse().ok()? }),
+        "w" => Some(Rq { kind: Rk::Walk, m: rest.parse().ok()? }),
+        "g" => {
+            let (fk, m) = rest.split_once('_')?;
+            let fk: u8 = fk.parse().ok()?;
+            if fk >= 3 {
+                return None;
+            }
+            Some(Rq { kind: Rk::File(fk), m: m.parse().ok()? })
+        }
+        _ => None,
+    }
+}
+fn show_rq(r: &Rq) -> String {
+    match r.kind {
+        Rk::Fill => format!("f{}", r.m),
+        Rk::Walk => format!("w{}", r.m),
+        Rk::File(fk) => format!("g{fk}_{}", r.m),
+    }
+}
+fn parse_progs(s: &str) -> Option<Vec<Vec<Rq>>> {
+    let mut progs = vec![];
+    for p in s.split(';') {
+        let mut prog = vec![];
+        if p != "-" {
+            for r in p.split(',') {
+                prog.push(parse_rq(r)?);
+            }
+        }
+        progs.push(prog);
+    }
+    Some(progs)
+}
+fn show_progs(progs: &[Vec<Rq>]) -> String {
+    progs
+        .iter()
+        .map(|p| if p.is_empty() { "-".to_string() } else { p.iter().map(show_rq).collect::<Vec<_>>().join(",") })
+        .collect::<Vec<_>>()
+        .join(";")
+}
+fn file_kind(fk: u8) -> FileKind {
+    match fk {
+        0 => FileKind::BreakpadSym,
+        1 => FileKind::Binary,
+        _ => FileKind::ExtraDebugInfo,
+    }
+}
+fn kind_ix(k: FileKind) -> u8 {
+    match k {
+        FileKind::BreakpadSym => 0,
+        FileKind::Binary => 1,
+        FileKind::ExtraDebugInfo => 2,
+    }
+}
+
+/// outcome of `locate_symbols` in the supplier table
+#[derive(Clone, Copy, Debug, PartialEq, Eq)]
+enum SRes {
+    Ok, // symbols with CFI at the walked address
+    On, // symbols without CFI
+    Nf,
+    Pe,
+}
+impl SRes {
+    fn s(self) -> &'static str {
+        match self {
+            SRes::Ok => "ok",
+            SRes::On => "on",
+            SRes::Nf => "nf",
+            SRes::Pe => "pe",
+        }
+    }
+    fn class(self) -> Res {
+        match self {
+            SRes::Ok | SRes::On => Res::Ok,
+            SRes::Nf => Res::Nf,
+            SRes::Pe => Res::Pe,
+        }
+    }
+}
+
+#[derive(Clone, Debug)]
+struct RCase {
+    mode: char,
+    /// one letter per provider (`u`), or `U` (one provider, no MultiSymbolProvider), or empty
+    provs: String,
+    mods: Vec<ModSpec>,
+    progs: Vec<Vec<Rq>>,
+    sym: BTreeMap<(usize, usize), (u32, SRes)>,
+    file: BTreeMap<(usize, usize, u8), (u32, bool)>,
+    sched: Vec<u64>,
+}
+
+impl RCase {
+    fn nprov(&self) -> usize {
+        self.provs.len()
+    }
+    fn bare(&self) -> bool {
+        self.provs == "U"
+    }
+    /// name of the module's key: index of the first module of the table with the same identity
+    fn key(&self, m: usize) -> usize {
+        let id = self.mods[m].ident();
+        self.mods.iter().position(|x| x.ident() == id).unwrap()
+    }
+    /// does another key of the table have the same statistics key (code file leaf name)?
+    fn leaf_shared(&self, k: usize) -> bool {
+        (0..self.mods.len()).any(|j| self.key(j) == j && j != k && self.mods[j].leaf() == self.mods[k].leaf())
+    }
+}
+
+fn parse_rcase(case: &str) -> Option<RCase> {
+    let f: Vec<&str> = case.split(' ').filter(|s| !s.is_empty()).collect();
+    if f.len() != 9 || f[0] != "once" || f[1] != "req" {
+        return None;
+    }
+    let mode = match f[2].strip_prefix("x:")? {
+        "a" => 'a',
+        "w" => 'w',
+        "j" => 'j',
+        "m" => 'm',
+        _ => return None,
+    };
+    let mods: Vec<ModSpec> = f[3].strip_prefix("mods:")?.split(';').map(ModSpec::parse).collect::<Option<_>>()?;
+    let provs = match f[4].strip_prefix("provs:")? {
+        "-" => String::new(),
+        "U" => "U".to_string(),
+        x if x.chars().all(|c| c == 'u') => x.to_string(),
+        _ => return None, // a caching supplier exists only as HttpSymbolSupplier: `once http`
+    };
+    let progs = parse_progs(f[5].strip_prefix("tasks:")?)?;
+    let mut sym = BTreeMap::new();
+    let st = f[6].strip_prefix("sym:")?;
+    if st != "-" {
+        for e in st.split(',') {
+            let (pk, v) = e.split_once('=')?;
+            let (p, k) = pk.split_once('.')?;
+            let (d, r) = v.split_once(':')?;
+            let r = match r {
+                "ok" => SRes::Ok,
+                "on" => SRes::On,
+                "nf" => SRes::Nf,
+                "pe" => SRes::Pe,
+                _ => return None,
+            };
+            sym.insert((p.parse().ok()?, k.parse().ok()?), (d.parse().ok()?, r));
+        }
+    }
+    let mut file = BTreeMap::new();
+    let ft = f[7].strip_prefix("file:")?;
+    if ft != "-" {
+        for e in ft.split(',') {
+            let (pk, v) = e.split_once('=')?;
+            let mut it = pk.split('.');
+            let (p, k, fk) = (it.next()?, it.next()?, it.next()?);
+            if it.next().is_some() {
+                return None;
+            }
+            let (d, r) = v.split_once(':')?;
+            let r = match r {
+                "ok" => true,
+                "nf" => false,
+                _ => return None,
+            };
+            file.insert((p.parse().ok()?, k.parse().ok()?, fk.parse().ok()?), (d.parse().ok()?, r));
+        }
+    }
+    let s = f[8].strip_prefix("sched:")?;
+    let sched = if s == "-" { vec![] } else { s.split(',').map(|x| x.parse().ok()).collect::<Option<Vec<u64>>>()? };
+    let c = RCase { mode, provs, mods, progs, sym, file, sched };
+    for q in c.progs.iter().flatten() {
+        if q.m >= c.mods.len() {
+            return None;
+        }
+        for p in 0..c.nprov() {
+            let ok = match q.kind {
+                Rk::File(fk) => c.file.contains_key(&(p, c.key(q.m), fk)),
+                _ => c.sym.contains_key(&(p, c.key(q.m))),
+            };
+            if !ok {
+                return None;
+            }
+        }
+    }
+    if (mode == 'j' || mode == 'm') && !c.sched.is_empty() {
+        return None;
+    }
+    Some(c)
+}
+
+fn render_rcase(c: &RCase) -> String {
+    let sym = if c.sym.is_empty() {
+        "-".to_string()
+    } else {
+        c.sym.iter().map(|((p, k), (d, r))| format!("{p}.{k}={d}:{}", r.s())).collect::<Vec<_>>().join(",")
+    };
+    let file = if c.file.is_empty() {
+        "-".to_string()
+    } else {
+        c.file
+            .iter()
+            .map(|((p, k, fk), (d, r))| format!("{p}.{k}.{fk}={d}:{}", if *r { "ok" } else { "nf" }))
+            .collect::<Vec<_>>()
+            .join(",")
+    };
+    let sched = if c.sched.is_empty() { "-".to_string() } else { c.sched.iter().map(|x| x.to_string()).collect::<Vec<_>>().join(",") };
+    format!(
+        "once req x:{} mods:{} provs:{} tasks:{} sym:{sym} file:{file} sched:{sched}",
+        c.mode,
+        c.mods.iter().map(|m| m.show()).collect::<Vec<_>>().join(";"),
+        if c.provs.is_empty() { "-" } else { &c.provs },
+        show_progs(&c.progs),
+    )
+}
+
+#[derive(Clone, Debug, PartialEq)]
+enum REv {
+    Call(usize, usize),
+    Ret(usize, usize),
+    FCall(usize, usize, u8),
+    FRet(usize, usize, u8),
+    /// request (t, j) got an answer from provider p for key k (file kind fk): class, and which supplier
+    /// call instance it was served from
+    Seen { t: usize, j: usize, p: usize, k: usize, fk: Option<u8>, res: Res, inst: Option<String> },
+    Out { t: usize, j: usize, out: String },
+}
+
+#[derive(Default)]
+struct RShared {
+    events: Vec<REv>,
+    calls: BTreeMap<(usize, usize), usize>,
+    fcalls: BTreeMap<(usize, usize, u8), usize>,
+}
+
+struct RCtx {
+    c: RCase,
+    built: Vec<SimpleModule>,
+    sh: Mutex<RShared>,
+    /// busy-wait inside a suspended supplier call (multi-thread mode: keeps the lock held long enough for
+    /// other workers to run into it)
+    spin_us: u64,
+}
+
+impl RCtx {
+    fn key_of(&self, module: &(dyn Module + Sync)) -> usize {
+        for (i, b) in self.built.iter().enumerate() {
+            if b.code_file() == module.code_file()
+                && b.code_identifier() == module.code_identifier()
+                && b.debug_file() == module.debug_file()
+                && b.debug_identifier() == module.debug_identifier()
+            {
+                return i;
+            }
+        }
+        panic!("mock: unknown module {:?}", module.code_file());
+    }
+}
+
+fn tag_of(module: &(dyn Module + Sync)) -> (usize, usize) {
+    let v = module.version().map(|v| v.to_string()).unwrap_or_default();
+    let v = v.strip_prefix('t').unwrap_or("0j0");
+    let (t, j) = v.split_once('j').unwrap_or(("0", "0"));
+    (t.parse().unwrap_or(0), j.parse().unwrap_or(0))
+}
+
+struct RMock {
+    p: usize,
+    cx: Arc<RCtx>,
+}
+
+async fn suspend(cx: &RCtx, n: u32) {
+    for _ in 0..n {
+        if cx.spin_us > 0 {
+            let t0 = std::time::Instant::now();
+            while t0.elapsed() < std::time::Duration::from_micros(cx.spin_us) {
+                std::hint::spin_loop();
+            }
+        }
+        YieldOnce(false).await;
+    }
+}
+
+#[async_trait]
+impl SymbolSupplier for RMock {
+    async fn locate_symbols(&self, module: &(dyn Module + Sync)) -> Result<LocateSymbolsResult, SymbolError> {
+        let (p, k) = (self.p, self.cx.key_of(module));
+        // (a module no fill/walk request names has no table entry: the oracle reports the call)
+        let (delay, res) = self.cx.c.sym.get(&(p, k)).copied().unwrap_or((0, SRes::Nf));
+        let inst = {
+            let mut sh = self.cx.sh.lock().unwrap();
+            sh.events.push(REv::Call(p, k));
+            let c = sh.calls.entry((p, k)).or_insert(0);
+            *c += 1;
+            *c
+        };
+        suspend(&self.cx, delay).await;
+        self.cx.sh.lock().unwrap().events.push(REv::Ret(p, k));
+        match res {
+            SRes::Ok | SRes::On => {
+                let mut text = format!("MODULE Linux x86 000000000000000000000000000000000 m{k}\nFUNC 1000 100 0 fn_p{p}_k{k}_call{inst}\n");
+                if res == SRes::Ok {
+                    text.push_str(&format!("STACK CFI INIT 1000 100 .cfa: {} .ra: 8192\n", 4096 + p * 64 + inst));
+                }
+                Ok(LocateSymbolsResult { symbols: SymbolFile::from_bytes(text.as_bytes())?, extra_debug_info: None })
+            }
+            SRes::Nf => Err(SymbolError::NotFound),
+            SRes::Pe => match SymbolFile::from_bytes(b"MODULE Linux x86 0 m\nthis is not a record\n") {
+                Err(e) => Err(e),
+                Ok(_) => panic!("mock: garbage parsed"),
+            },
+        }
+    }
+
+    async fn locate_file(&self, module: &(dyn Module + Sync), file_kind: FileKind) -> Result<PathBuf, FileError> {
+        let (p, k, fk) = (self.p, self.cx.key_of(module), kind_ix(file_kind));
+        let (delay, ok) = self.cx.c.file.get(&(p, k, fk)).copied().unwrap_or((0, false));
+        let inst = {
+            let mut sh = self.cx.sh.lock().unwrap();
+            sh.events.push(REv::FCall(p, k, fk));
+            let c = sh.fcalls.entry((p, k, fk)).or_insert(0);
+            *c += 1;
+            *c
+        };
+        suspend(&self.cx, delay).await;
+        self.cx.sh.lock().unwrap().events.push(REv::FRet(p, k, fk));
+        if ok {
+            Ok(PathBuf::from(format!("/p{p}/k{k}/f{fk}/call{inst}")))
+        } else {
+            Err(FileError::NotFound)
+        }
+    }
+}
+
+/// records what the provider wrote into the caller's frame
+struct RecFrame<'a> {
+    inner: &'a mut (dyn breakpad_symbols::FrameSymbolizer + Send),
+    name: Option<String>,
+}
+impl breakpad_symbols::FrameSymbolizer for RecFrame<'_> {
+    fn get_instruction(&self) -> u64 {
+        self.inner.get_instruction()
+    }
+    fn set_function(&mut self, name: &str, base: u64, parameter_size: u32) {
+        self.name = Some(name.to_string());
+        self.inner.set_function(name, base, parameter_size)
+    }
+    fn set_source_file(&mut self, file: &str, line: u32, base: u64) {
+        self.inner.set_source_file(file, line, base)
+    }
+    fn add_inline_frame(&mut self, name: &str, file: Option<&str>, line: Option<u32>) {
+        self.inner.add_inline_frame(name, file, line)
+    }
+}
+struct RecWalker<'a> {
+    inner: &'a mut (dyn FrameWalker + Send),
+    cfa: Option<u64>,
+}
+impl FrameWalker for RecWalker<'_> {
+    fn get_instruction(&self) -> u64 {
+        self.inner.get_instruction()
+    }
+    fn has_grand_callee(&self) -> bool {
+        self.inner.has_grand_callee()
+    }
+    fn get_grand_callee_parameter_size(&self) -> u32 {
+        self.inner.get_grand_callee_parameter_size()
+    }
+    fn get_register_at_address(&self, address: u64) -> Option<u64> {
+        self.inner.get_register_at_address(address)
+    }
+    fn get_callee_register(&self, name: &str) -> Option<u64> {
+        self.inner.get_callee_register(name)
+    }
+    fn set_caller_register(&mut self, name: &str, val: u64) -> Option<()> {
+        self.inner.set_caller_register(name, val)
+    }
+    fn clear_caller_register(&mut self, name: &str) {
+        self.inner.clear_caller_register(name)
+    }
+    fn set_cfa(&mut self, val: u64) -> Option<()> {
+        self.cfa = Some(val);
+        self.inner.set_cfa(val)
+    }
+    fn set_ra(&mut self, val: u64) -> Option<()> {
+        self.inner.set_ra(val)
+    }
+}
+
+/// provider `p` as the MultiSymbolProvider (or the task) sees it: the real Symbolizer, plus a log
+struct Spy {
+    p: usize,
+    sym: Arc<Symbolizer>,
+    cx: Arc<RCtx>,
+}
+
+impl Spy {
+    /// the remembered failure, as far as the public API shows it: the statistics are keyed by the code
+    /// file's leaf name, which tells the keys apart only when no other key has that leaf
+    fn failure_class(&self, k: usize) -> Res {
+        if self.cx.c.leaf_shared(k) {
+            return Res::Nf;
+        }
+        match self.sym.stats().get(&self.cx.c.mods[k].leaf()) {
+            Some(s) if s.loaded_symbols && s.corrupt_symbols => Res::Pe,
+            Some(s) if s.loaded_symbols => Res::Ok,
+            _ => Res::Nf,
+        }
+    }
+}
+
+#[async_trait]
+impl SymbolProvider for Spy {
+    async fn fill_symbol(
+        &self,
+        module: &(dyn Module + Sync),
+        frame: &mut (dyn breakpad_symbols::FrameSymbolizer + Send),
+    ) -> Result<(), breakpad_symbols::FillSymbolError> {
+        let (t, j) = tag_of(module);
+        let k = self.cx.key_of(module);
+        let mut rec = RecFrame { inner: frame, name: None };
+        let r = self.sym.fill_symbol(module, &mut rec).await;
+        let (res, inst) = match &r {
+            Ok(()) => (
+                Res::Ok,
+                Some(rec.name.clone().unwrap_or_default().trim_start_matches(&format!("fn_p{}_k{k}_", self.p)).to_string()),
+            ),
+            Err(_) => (self.failure_class(k), None),
+        };
+        self.cx.sh.lock().unwrap().events.push(REv::Seen { t, j, p: self.p, k, fk: None, res, inst });
+        r
+    }
+    async fn walk_frame(&self, module: &(dyn Module + Sync), walker: &mut (dyn FrameWalker + Send)) -> Option<()> {
+        let (t, j) = tag_of(module);
+        let k = self.cx.key_of(module);
+        let mut rec = RecWalker { inner: walker, cfa: None };
+        let r = self.sym.walk_frame(module, &mut rec).await;
+        let (res, inst) = match &r {
+            Some(()) => (Res::Ok, Some(format!("call{}", rec.cfa.unwrap_or(0).wrapping_sub(4096 + 64 * self.p as u64)))),
+            None => (self.failure_class(k), None),
+        };
+        self.cx.sh.lock().unwrap().events.push(REv::Seen { t, j, p: self.p, k, fk: None, res, inst });
+        r
+    }
+    async fn get_file_path(&self, module: &(dyn Module + Sync), file_kind: FileKind) -> Result<PathBuf, FileError> {
+        let (t, j) = tag_of(module);
+        let k = self.cx.key_of(module);
+        let fk = kind_ix(file_kind);
+        let r = self.sym.get_file_path(module, file_kind).await;
+        let (res, inst) = match &r {
+            Ok(path) => (
+                Res::Ok,
+                Some(path.to_string_lossy().trim_start_matches(&format!("/p{}/k{k}/f{fk}/", self.p)).to_string()),
+            ),
+            Err(_) => (Res::Nf, None),
+        };
+        self.cx.sh.lock().unwrap().events.push(REv::Seen { t, j, p: self.p, k, fk: Some(fk), res, inst });
+        r
+    }
+    fn stats(&self) -> std::collections::HashMap<String, SymbolStats> {
+        self.sym.stats()
+    }
+    fn pending_stats(&self) -> breakpad_symbols::PendingSymbolStats {
+        self.sym.pending_stats()
+    }
+}
+
+struct RWorld {
+    cx: Arc<RCtx>,
+    syms: Vec<Arc<Symbolizer>>,
+    top: Arc<dyn SymbolProvider + Send + Sync>,
+}
+
+fn build_world(c: &RCase, spin_us: u64) -> RWorld {
+    let built = c.mods.iter().map(|m| m.build(None)).collect();
+    let cx = Arc::new(RCtx { c: c.clone(), built, sh: Mutex::new(RShared::default()), spin_us });
+    let syms: Vec<Arc<Symbolizer>> = (0..c.nprov()).map(|p| Arc::new(Symbolizer::new(RMock { p, cx: cx.clone() }))).collect();
+    let top: Arc<dyn SymbolProvider + Send + Sync> = if c.bare() {
+        Arc::new(Spy { p: 0, sym: syms[0].clone(), cx: cx.clone() })
+    } else {
+        let mut multi = MultiSymbolProvider::new();
+        for (p, s) in syms.iter().enumerate() {
+            multi.add(Box::new(Spy { p, sym: s.clone(), cx: cx.clone() }));
+        }
+        Arc::new(multi)
+    };
+    RWorld { cx, syms, top }
+}
+
+/// which provider's write a name / cfa / path shows
+fn prov_of(s: &str, prefix: &str) -> String {
+    s.strip_prefix(prefix)
+        .map(|r| r.chars().take_while(|c| c.is_ascii_digit()).collect::<String>())
+        .filter(|d| !d.is_empty())
+        .unwrap_or_else(|| "?".to_string())
+}
+
+async fn rtask_body(top: Arc<dyn SymbolProvider + Send + Sync>, cx: Arc<RCtx>, t: usize) {
+    let prog = cx.c.progs[t].clone();
+    for (j, rq) in prog.iter().enumerate() {
+        // a fresh, equal-by-value module every time; its version (not part of the identity) carries (t, j)
+        let m = cx.c.mods[rq.m].build(Some(format!("t{t}j{j}")));
+        let out = match rq.kind {
+            Rk::Fill => {
+                let mut f = SimpleFrame::with_instruction(0x1010);
+                match top.fill_symbol(&m, &mut f).await {
+                    Ok(()) => format!("F{}", prov_of(&f.function.unwrap_or_default(), "fn_p")),
+                    Err(_) => "F-".to_string(),
+                }
+            }
+            Rk::Walk => {
+                let mut w = Walker::default();
+                match top.walk_frame(&m, &mut w).await {
+                    Some(()) => format!("W{}", w.cfa.unwrap_or(0).wrapping_sub(4096) / 64),
+                    None => "W-".to_string(),
+                }
+            }
+            Rk::File(fk) => match top.get_file_path(&m, file_kind(fk)).await {
+                Ok(p) => format!("P{}", prov_of(&p.to_string_lossy(), "/p")),
+                Err(_) => "P-".to_string(),
+            },
+        };
+        cx.sh.lock().unwrap().events.push(REv::Out { t, j, out });
+    }
+}
+
+fn rev_str(e: &REv) -> Option<String> {
+    Some(match e {
+        REv::Call(p, k) => format!("c{p}.{k}"),
+        REv::Ret(p, k) => format!("r{p}.{k}"),
+        REv::FCall(p, k, fk) => format!("C{p}.{k}.{fk}"),
+        REv::FRet(p, k, fk) => format!("R{p}.{k}.{fk}"),
+        REv::Seen { t, p, k, fk: None, res, .. } => format!("s{t}.{p}.{k}={}", res.s()),
+        REv::Seen { t, p, k, fk: Some(fk), res, .. } => format!("S{t}.{p}.{k}.{fk}={}", res.s()),
+        REv::Out { .. } => return None,
+    })
+}
+
+fn stat_class(s: &SymbolStats) -> &'static str {
+    if s.loaded_symbols && s.corrupt_symbols {
+        "pe"
+    } else if s.loaded_symbols {
+        "ok"
+    } else {
+        "nf"
+    }
+}
+
+/// canonical rendering of a statistics map: keys are leaf names `m<l>.so` (printed `<l>`) or `` (`-`)
+fn stats_str(m: &std::collections::HashMap<String, SymbolStats>) -> String {
+    let mut v: Vec<(i64, String)> = m
+        .iter()
+        .map(|(k, s)| {
+            let (ord, name) = if k.is_empty() {
+                (-1, "-".to_string())
+            } else {
+                match k.strip_prefix('m').and_then(|r| r.strip_suffix(".so")).and_then(|d| d.parse::<i64>().ok()) {
+                    Some(n) => (n, n.to_string()),
+                    None => (i64::MAX, format!("?{k}")),
+                }
+            };
+            (ord, format!("{name}={}", stat_class(s)))
+        })
+        .collect();
+    v.sort();
+    v.into_iter().map(|x| x.1).collect::<Vec<_>>().join(",")
+}
+
+fn pend_str(w: &RWorld) -> String {
+    let per: Vec<String> = w
+        .syms
+        .iter()
+        .map(|s| {
+            let ps = s.pending_stats();
+            format!("{}/{}", ps.symbols_requested, ps.symbols_processed)
+        })
+        .collect();
+    let m = w.top.pending_stats();
+    format!("{}m{}/{}", per.join(","), m.symbols_requested, m.symbols_processed)
+}
+
+struct RRunOut {
+    trace: Vec<String>,
+    summary: String,
+    events: Vec<REv>,
+    calls: BTreeMap<(usize, usize), usize>,
+    /// per poll, per provider: (requested, processed, supplier calls started, returned)
+    counters: Vec<Vec<(u64, u64, u64, u64)>>,
+    finished: Vec<bool>,
+    stalled: bool,
+    blocked_polls: usize,
+    stats: Vec<std::collections::HashMap<String, SymbolStats>>,
+    /// violations of the statistics invariant seen after some poll
+    stats_findings: Vec<String>,
+}
+
+fn counters_now(w: &RWorld, sh: &RShared) -> Vec<(u64, u64, u64, u64)> {
+    w.syms
+        .iter()
+        .enumerate()
+        .map(|(p, s)| {
+            let ps = s.pending_stats();
+            let st = sh.events.iter().filter(|e| matches!(e, REv::Call(q, _) if *q == p)).count() as u64;
+            let rt = sh.events.iter().filter(|e| matches!(e, REv::Ret(q, _) if *q == p)).count() as u64;
+            (ps.symbols_requested, ps.symbols_processed, st, rt)
+        })
+        .collect()
+}
+
+fn rsummary(w: &RWorld, sh: &RShared, finished: &[bool]) -> String {
+    let c = &w.cx.c;
+    let calls = sh.calls.iter().filter(|(_, n)| **n > 0).map(|((p, k), n)| format!("{p}.{k}x{n}")).collect::<Vec<_>>().join(",");
+    let fcalls = sh.fcalls.iter().filter(|(_, n)| **n > 0).map(|((p, k, fk), n)| format!("{p}.{k}.{fk}x{n}")).collect::<Vec<_>>().join(",");
+    let outs = (0..c.progs.len())
+        .map(|t| {
+            format!(
+                "{t}:{}",
+                sh.events
+                    .iter()
+                    .filter_map(|e| match e {
+                        REv::Out { t: t2, out, .. } if *t2 == t => Some(out.clone()),
+                        _ => None,
+                    })
+                    .collect::<Vec<_>>()
+                    .join(",")
+            )
+        })
+        .collect::<Vec<_>>()
+        .join(";");
+    let stats = w.syms.iter().enumerate().map(|(p, s)| format!("{p}:{}", stats_str(&s.stats()))).collect::<Vec<_>>().join(";");
+    format!(
+        "final fin={} pend={} calls:{calls} fcalls:{fcalls} outs:{outs} stats:{stats} mstats:{}",
+        if finished.iter().all(|f| *f) { 1 } else { 0 },
+        pend_str(w),
+        stats_str(&w.top.stats()),
+    )
+}
+
+/// modes `a` and `w`
+fn rrun_scheduled(c: &RCase) -> RRunOut {
+    let n = c.progs.len();
+    let w = build_world(c, 0);
+    let flags: Vec<Arc<Flag>> = (0..n).map(|_| Arc::new(Flag(AtomicBool::new(true)))).collect();
+    let wakers: Vec<Waker> = flags.iter().map(|f| Waker::from(f.clone())).collect();
+    let mut futs: Vec<Option<Pin<Box<dyn Future<Output = ()>>>>> = Vec::new();
+    for t in 0..n {
+        futs.push(Some(Box::pin(rtask_body(w.top.clone(), w.cx.clone(), t))));
+    }
+    let mut out = RRunOut {
+        trace: vec![],
+        summary: String::new(),
+        events: vec![],
+        calls: BTreeMap::new(),
+        counters: vec![],
+        finished: vec![false; n],
+        stalled: false,
+        blocked_polls: 0,
+        stats: vec![],
+        stats_findings: vec![],
+    };
+    let mut seen_events = 0usize;
+    let mut last_stats: Vec<String> = vec![String::new(); w.syms.len()];
+    let mut poll_one = |t: usize, futs: &mut Vec<Option<Pin<Box<dyn Future<Output = ()>>>>>, out: &mut RRunOut| -> String {
+        if t < n {
+            if let Some(f) = futs[t].as_mut() {
+                flags[t].0.store(false, Ordering::SeqCst);
+                let mut cx = Context::from_waker(&wakers[t]);
+                if f.as_mut().poll(&mut cx).is_ready() {
+                    futs[t] = None;
+                    out.finished[t] = true;
+                }
+            }
+        }
+        let shg = w.cx.sh.lock().unwrap();
+        let evs = &shg.events[seen_events..];
+        if t < n && evs.is_empty() && !out.finished[t] && !flags[t].0.load(Ordering::SeqCst) {
+            out.blocked_polls += 1;
+        }
+        out.counters.push(counters_now(&w, &shg));
+        // the statistics map of every provider whose map changed during this poll
+        let mut stats_delta = String::new();
+        for (p, sy) in w.syms.iter().enumerate() {
+            let st = sy.stats();
+            if out.stats_findings.is_empty() {
+                if let Some(f) = stats_check(&w.cx.c, p, &st, &shg.events) {
+                    out.stats_findings.push(format!("after poll #{}: {f}", out.counters.len() - 1));
+                }
+            }
+            let now = stats_str(&st);
+            if now != last_stats[p] {
+                stats_delta.push_str(&format!("S{p}:{now}"));
+                last_stats[p] = now;
+            }
+        }
+        let s = format!(
+            "{t}[{}|{}]{}{stats_delta}w{}f{}",
+            evs.iter().filter_map(rev_str).collect::<Vec<_>>().join(","),
+            evs.iter()
+                .filter_map(|e| match e {
+                    REv::Out { out, .. } => Some(out.clone()),
+                    _ => None,
+                })
+                .collect::<Vec<_>>()
+                .join(","),
+            pend_str(&w),
+            flags.iter().map(|f| if f.0.load(Ordering::SeqCst) { '1' } else { '0' }).collect::<String>(),
+            out.finished.iter().map(|f| if *f { '1' } else { '0' }).collect::<String>(),
+        );
+        seen_events = shg.events.len();
+        s
+    };
+    let runnable = |out: &RRunOut| -> Vec<usize> { (0..n).filter(|&t| flags[t].0.load(Ordering::SeqCst) && !out.finished[t]).collect() };
+    for &x in &c.sched {
+        if c.mode == 'a' {
+            let e = poll_one(x as usize, &mut futs, &mut out);
+            out.trace.push(e);
+        } else {
+            if out.finished.iter().all(|f| *f) {
+                break;
+            }
+            let r = runnable(&out);
+            if r.is_empty() {
+                out.trace.push("stall".into());
+                out.stalled = true;
+                break;
+            }
+            let t = r[(x as usize) % r.len()];
+            let e = poll_one(t, &mut futs, &mut out);
+            out.trace.push(e);
+        }
+    }
+    let mut budget = 50_000usize;
+    while !out.finished.iter().all(|f| *f) && budget > 0 && !out.stalled {
+        let todo: Vec<usize> = if c.mode == 'a' {
+            (0..n).filter(|&t| !out.finished[t]).collect()
+        } else {
+            let r = runnable(&out);
+            if r.is_empty() {
+                out.stalled = true;
+                break;
+            }
+            r
+        };
+        for t in todo {
+            if !out.finished[t] {
+                let _ = poll_one(t, &mut futs, &mut out);
+                budget = budget.saturating_sub(1);
+            }
+        }
+    }
+    drop(poll_one);
+    drop(futs);
+    let shg = w.cx.sh.lock().unwrap();
+    out.summary = rsummary(&w, &shg, &out.finished);
+    out.events = shg.events.clone();
+    out.calls = shg.calls.clone();
+    out.stats = w.syms.iter().map(|s| s.stats()).collect();
+    out
+}
+
+thread_local! {
+    /// one 4-worker runtime per harness thread, reused by all `x:m` cases of that thread
+    static MT_RT: std::cell::RefCell<Option<Arc<tokio::runtime::Runtime>>> = const { std::cell::RefCell::new(None) };
+}
+fn mt_runtime() -> Arc<tokio::runtime::Runtime> {
+    MT_RT.with(|r| {
+        r.borrow_mut()
+            .get_or_insert_with(|| Arc::new(tokio::runtime::Builder::new_multi_thread().worker_threads(4).enable_all().build().unwrap()))
+            .clone()
+    })
+}
+
+/// mode `j`: `join_all` on a current-thread runtime; mode `m`: every task spawned on a multi-thread runtime
+/// with 4 workers (genuinely parallel polls)
+fn rrun_runtime(c: &RCase) -> RRunOut {
+    let n = c.progs.len();
+    let w = build_world(c, if c.mode == 'm' { 30 } else { 0 });
+    let done = if c.mode == 'j' {
+        let rt = tokio::runtime::Builder::new_current_thread().enable_time().build().unwrap();
+        rt.block_on(async {
+            let futs = (0..n).map(|t| rtask_body(w.top.clone(), w.cx.clone(), t));
+            tokio::time::timeout(std::time::Duration::from_secs(10), futures_util::future::join_all(futs)).await.is_ok()
+        })
+    } else {
+        let rt = mt_runtime();
+        let handles: Vec<_> = (0..n).map(|t| rt.spawn(rtask_body(w.top.clone(), w.cx.clone(), t))).collect();
+        rt.block_on(async {
+            tokio::time::timeout(std::time::Duration::from_secs(10), futures_util::future::join_all(handles))
+                .await
+                .map(|rs| rs.iter().all(|r| r.is_ok()))
+                .unwrap_or(false)
+        })
+    };
+    let shg = w.cx.sh.lock().unwrap();
+    let finished = vec![done; n];
+    RRunOut {
+        trace: vec![],
+        summary: rsummary(&w, &shg, &finished),
+        events: shg.events.clone(),
+        calls: shg.calls.clone(),
+        counters: vec![counters_now(&w, &shg)],
+        finished,
+        stalled: !done,
+        blocked_polls: 0,
+        stats: w.syms.iter().map(|s| s.stats()).collect(),
+        stats_findings: vec![],
+    }
+}
+
+/// `stats()` of provider `p` against the supplier calls that have RETURNED so far: every module whose
+/// lookup returned has an entry with its outcome, and there is no entry for anything else
+fn stats_check(c: &RCase, p: usize, st: &std::collections::HashMap<String, SymbolStats>, events: &[REv]) -> Option<String> {
+    let returned: BTreeSet<usize> = events.iter().filter_map(|e| match e { REv::Ret(q, k) if *q == p => Some(*k), _ => None }).collect();
+    for k in &returned {
+        if c.leaf_shared(*k) {
+            continue;
+        }
+        let want = c.sym.get(&(p, *k)).map(|v| v.1.class()).unwrap_or(Res::Nf).s();
+        let got = st.get(&c.mods[*k].leaf()).map(stat_class).unwrap_or("absent");
+        if got != want {
+            return Some(format!("provider {p}: stats[{:?}] says {got} but the remembered outcome of module {k} is {want}", c.mods[*k].leaf()));
+        }
+    }
+    let leaves: BTreeSet<String> = returned.iter().map(|k| c.mods[*k].leaf()).collect();
+    for key in st.keys() {
+        if !leaves.contains(key) {
+            return Some(format!("provider {p}: stats has an entry {key:?} although no lookup of a module with that leaf name has returned"));
+        }
+    }
+    None
+}
+
+
+/// the property's oracle on the implementation's behaviour alone. "Module" = identity
+/// (code file, code id, debug file, debug id) of the case's module table, not any key of the code.
+fn roracle(c: &RCase, r: &RRunOut) -> Vec<(String, String)> {
+    let mut o = vec![];
+    let np = c.nprov();
+    // (1) each provider's supplier is asked at most once per distinct module
+    for ((p, k), n) in &r.calls {
+        if *n > 1 {
+            o.push(("supplier-called-twice".into(), format!("locate_symbols of provider {p} called {n} times for module {} ({})", k, c.mods[*k].show())));
+        }
+    }
+    //     and only for modules somebody asked symbols for (get_file_path does not need them)
+    for (p, k) in r.calls.keys() {
+        if !c.sym.contains_key(&(*p, *k)) {
+            o.push(("supplier-asked-unasked".into(), format!("locate_symbols of provider {p} called for module {k} ({}) although no fill_symbol/walk_frame request names it", c.mods[*k].show())));
+        }
+    }
+    let sym_class = |p: usize, k: usize| c.sym.get(&(p, k)).map(|v| v.1.class()).unwrap_or(Res::Nf);
+    // (2) every requester of a module observes the same outcome (incl. a remembered failure): the one
+    //     that provider's supplier gave, served from its one call
+    let mut per_key: BTreeMap<(usize, usize), Vec<(usize, Res, Option<String>)>> = BTreeMap::new();
+    for e in &r.events {
+        match e {
+            REv::Seen { t, p, k, fk: None, res, inst, .. } => per_key.entry((*p, *k)).or_default().push((*t, *res, inst.clone())),
+            REv::Seen { t, p, k, fk: Some(fk), res, .. } => {
+                let want = if c.file.get(&(*p, *k, *fk)).map(|v| v.1).unwrap_or(false) { Res::Ok } else { Res::Nf };
+                if *res != want {
+                    o.push(("wrong-outcome".into(), format!("locate_file({k},{fk}) of provider {p} answered {} but task {t} observed {}", want.s(), res.s())));
+                }
+            }
+            _ => {}
+        }
+    }
+    for ((p, k), v) in &per_key {
+        if let Some(first) = v.first() {
+            // a walk_frame through symbols without CFI observes `None` although the symbols are there: only
+            // the class is compared across requesters, and the call instance among those that show one
+            if let Some(other) = v.iter().find(|x| x.1 != first.1) {
+                o.push(("outcomes-disagree".into(), format!("provider {p}, module {k}: task {} saw {} but task {} saw {}", first.0, first.1.s(), other.0, other.1.s())));
+            }
+            let insts: BTreeSet<&String> = v.iter().filter_map(|x| x.2.as_ref()).collect();
+            if insts.len() > 1 || insts.iter().any(|i| i.as_str() != "call1") {
+                o.push(("outcomes-disagree".into(), format!("provider {p}, module {k}: requesters were served from supplier calls {insts:?}")));
+            }
+        }
+        let want = sym_class(*p, *k);
+        // (failures of modules that share their code-file leaf name cannot be classified from outside)
+        if let Some(bad) = v.iter().find(|x| x.1 != want && !(c.leaf_shared(*k) && want != Res::Ok && x.1 != Res::Ok)) {
+            o.push(("wrong-outcome".into(), format!("provider {p}, module {k}: supplier answered {} but task {} observed {}", want.s(), bad.0, bad.1.s())));
+        }
+    }
+    // (3) counters of every provider's symbolizer
+    let mut asked: Vec<BTreeSet<usize>> = vec![BTreeSet::new(); np];
+    for q in c.progs.iter().flatten() {
+        if matches!(q.kind, Rk::Fill | Rk::Walk) {
+            for a in asked.iter_mut() {
+                a.insert(c.key(q.m));
+            }
+        }
+    }
+    'outer: for (i, per) in r.counters.iter().enumerate() {
+        for (p, (rq, pr, st, rt)) in per.iter().enumerate() {
+            if !(pr <= rq && *rq <= asked[p].len() as u64) {
+                o.push(("counters-out-of-order".into(), format!("after poll #{i}, provider {p}: requested={rq} processed={pr} distinct modules asked for={}", asked[p].len())));
+                break 'outer;
+            }
+            if rq != st || pr != rt {
+                o.push(("counters-vs-supplier".into(), format!("after poll #{i}, provider {p}: requested={rq} processed={pr} but the supplier has started {st} and finished {rt} lookups")));
+                break 'outer;
+            }
+        }
+    }
+    // (4) no request is lost or deadlocks
+    if r.stalled || !r.finished.iter().all(|f| *f) {
+        let class = if c.mode == 'a' { "deadlock" } else { "lost-wakeup-or-hang" };
+        o.push((class.into(), format!("tasks finished: {:?} (stalled={})", r.finished, r.stalled)));
+        return o;
+    }
+    if let Some(per) = r.counters.last() {
+        for (p, (rq, pr, _, _)) in per.iter().enumerate() {
+            // provider 0 is consulted by every fill/walk request; a later provider only when no earlier one
+            // has walked the frame
+            let consulted: BTreeSet<usize> = r.calls.keys().filter(|(q, _)| *q == p).map(|(_, k)| *k).collect();
+            let want = if p == 0 { asked[0].len() } else { consulted.len() } as u64;
+            if *rq != want || *pr != want {
+                o.push(("final-counters".into(), format!("all tasks finished, provider {p}: requested={rq} processed={pr} distinct modules asked for={want}")));
+            }
+        }
+    }
+    for (t, prog) in c.progs.iter().enumerate() {
+        let got: Vec<usize> = r.events.iter().filter_map(|e| match e { REv::Out { t: t2, j, .. } if *t2 == t => Some(*j), _ => None }).collect();
+        let want: Vec<usize> = (0..prog.len()).collect();
+        if got != want {
+            o.push(("request-lost".into(), format!("task {t} issued requests {want:?} but got answers for {got:?}")));
+        }
+    }
+    // (5) several providers: the answer is that of the first provider (in the order they were added) that
+    //     succeeded, and a walk does not go on to later providers after a success
+    for e in &r.events {
+        if let REv::Out { t, j, out } = e {
+            let q = c.progs[*t][*j];
+            let k = c.key(q.m);
+            let consulted: Vec<usize> = r.events.iter().filter_map(|e| match e { REv::Seen { t: t2, j: j2, p, .. } if t2 == t && j2 == j => Some(*p), _ => None }).collect();
+            let (want, want_consulted): (String, Vec<usize>) = match q.kind {
+                Rk::Fill => {
+                    let any = (0..np).any(|p| c.sym[&(p, k)].1.class() == Res::Ok);
+                    (if any { "F".into() } else { "F-".into() }, (0..np).collect())
+                }
+                Rk::Walk => match (0..np).find(|p| c.sym[&(*p, k)].1 == SRes::Ok) {
+                    Some(p) => (format!("W{p}"), (0..=p).collect()),
+                    None => ("W-".into(), (0..np).collect()),
+                },
+                Rk::File(fk) => match (0..np).find(|p| c.file[&(*p, k, fk)].1) {
+                    Some(p) => (format!("P{p}"), (0..np).collect()),
+                    None => ("P-".into(), (0..np).collect()),
+                },
+            };
+            let ok = if want == "F" { out.starts_with('F') && out != "F-" } else { *out == want };
+            if !ok {
+                o.push(("multi-wrong-combination".into(), format!("request {j} of task {t} ({}): got {out}, the first success in provider order is {want}", show_rq(&q))));
+            }
+            // providers are consulted in the order they were added, each at most once per request; a walk
+            // stops at its first success (whether fill_symbol / get_file_path go on after a success is the
+            // code's choice: compared with the model, not demanded here)
+            let in_order = consulted.windows(2).all(|w| w[0] < w[1]);
+            let walk_ok = q.kind != Rk::Walk || consulted == want_consulted;
+            if !in_order || !walk_ok {
+                o.push(("multi-consultation-order".into(), format!("request {j} of task {t} ({}): providers consulted {consulted:?}, expected {}{want_consulted:?}", show_rq(&q), if q.kind == Rk::Walk { "" } else { "an increasing part of " })));
+            }
+        }
+    }
+    // (6) the statistics of a provider reflect the one remembered outcome of each module — as far as the
+    //     leaf-name key tells modules apart (modules sharing a leaf: finding F16, owned by C13); checked
+    //     after every poll (`stats_findings`) and at the end
+    if let Some(f) = r.stats_findings.first() {
+        o.push(("stats-mismatch".into(), f.clone()));
+    }
+    for (p, st) in r.stats.iter().enumerate() {
+        if let Some(f) = stats_check(c, p, st, &r.events) {
+            o.push(("stats-mismatch".into(), format!("at the end: {f}")));
+        }
+    }
+    o
+}
+
+fn rexec_case(c: &RCase) -> ImplResult {
+    let mut res = ImplResult::default();
+    let run = catch(|| if c.mode == 'j' || c.mode == 'm' { rrun_runtime(c) } else { rrun_scheduled(c) });
+    let r = match run {
+        Ok(r) => r,
+        Err(msg) => {
+            res.out = "PANIC".into();
+            res.oracle.push(("panic".into(), msg));
+            return res;
+        }
+    };
+    res.out = format!("{} {}", r.trace.join(";"), r.summary);
+    res.oracle = roracle(c, &r);
+    let mut users: BTreeMap<usize, BTreeSet<usize>> = BTreeMap::new();
+    for (t, p) in c.progs.iter().enumerate() {
+        for q in p {
+            if matches!(q.kind, Rk::Fill | Rk::Walk) {
+                users.entry(c.key(q.m)).or_default().insert(t);
+            }
+        }
+    }
+    let shared_key = users.values().any(|u| u.len() >= 2);
+    let suspending = c.sym.values().any(|(d, _)| *d > 0);
+    res.nontrivial = shared_key && (r.blocked_polls > 0 || ((c.mode == 'j' || c.mode == 'm') && suspending));
+    res.tags.push(format!("req-exec:{}", c.mode));
+    res.tags.push(format!("providers:{}", if c.bare() { "1-bare".to_string() } else { c.nprov().to_string() }));
+    res.tags.push(format!("tasks:{}", c.progs.len()));
+    res.tags.push(format!("blocked-polls:{}", r.blocked_polls.min(5)));
+    for q in c.progs.iter().flatten() {
+        res.tags.push(match q.kind {
+            Rk::Fill => "api:fill_symbol".into(),
+            Rk::Walk => "api:walk_frame".into(),
+            Rk::File(fk) => format!("api:get_file_path:{fk}"),
+        });
+    }
+    let idents: BTreeSet<_> = c.mods.iter().map(|m| m.ident()).collect();
+    if idents.len() < c.mods.len() {
+        res.tags.push("same-key-modules".into());
+    }
+    if c.mods.iter().any(|m| m.cf != Cf::Path(0, 0) && !matches!(m.cf, Cf::Path(..))) {
+        res.tags.push("code-file-absent-or-empty".into());
+    }
+    if (0..c.mods.len()).any(|k| c.key(k) == k && c.leaf_shared(k)) {
+        res.tags.push("shared-leaf".into());
+    }
+    for e in &r.events {
+        if let REv::Out { out, .. } = e {
+            res.tags.push(format!("answer:{}", out));
+        }
+    }
+    res.tags.sort();
+    res.tags.dedup();
+    res.tags.push(if r.finished.iter().all(|f| *f) { "all-finished".into() } else { "unfinished".into() });
+    res
+}
+
+
+fn rshrink(case: &str, still_fails: &dyn Fn(&str) -> bool) -> String {
+    let Some(mut c) = parse_rcase(case) else { return case.to_string() };
+    let try_ = |d: &RCase, c: &mut RCase| -> bool {
+        let line = render_rcase(d);
+        if parse_rcase(&line).is_some() && still_fails(&line) {
+            *c = d.clone();
+            true
+        } else {
+            false
+        }
+    };
+    let mut progress = true;
+    while progress {
+        progress = false;
+        let mut i = 0;
+        while i < c.sched.len() {
+            let mut d = c.clone();
+            d.sched.remove(i);
+            if try_(&d, &mut c) {
+                progress = true;
+            } else {
+                i += 1;
+            }
+        }
+        for t in 0..c.progs.len() {
+            let mut i = 0;
+            while i < c.progs[t].len() {
+                let mut d = c.clone();
+                d.progs[t].remove(i);
+                if try_(&d, &mut c) {
+                    progress = true;
+                } else {
+                    i += 1;
+                }
+            }
+        }
+        while c.progs.len() > 1 && c.progs.last().map(|p| p.is_empty()).unwrap_or(false) {
+            let mut d = c.clone();
+            d.progs.pop();
+            if try_(&d, &mut c) {
+                progress = true;
+            } else {
+                break;
+            }
+        }
+        // fewer providers (the last one), when no table entry of it is needed any more
+        if c.nprov() > 1 {
+            let mut d = c.clone();
+            d.provs.pop();
+            let np = d.nprov();
+            d.sym.retain(|(p, _), _| *p < np);
+            d.file.retain(|(p, _, _), _| *p < np);
+            if try_(&d, &mut c) {
+                progress = true;
+            }
+        }
+        let keys: Vec<(usize, usize)> = c.sym.keys().copied().collect();
+        for k in keys {
+            while c.sym[&k].0 > 0 {
+                let mut d = c.clone();
+                d.sym.get_mut(&k).unwrap().0 -= 1;
+                if try_(&d, &mut c) {
+                    progress = true;
+                } else {
+                    break;
+                }
+            }
+        }
+        let keys: Vec<(usize, usize, u8)> = c.file.keys().copied().collect();
+        for k in keys {
+            while c.file[&k].0 > 0 {
+                let mut d = c.clone();
+                d.file.get_mut(&k).unwrap().0 -= 1;
+                if try_(&d, &mut c) {
+                    progress = true;
+                } else {
+                    break;
+                }
+            }
+        }
+    }
+    // drop table entries no request needs
+    let mut d = c.clone();
+    let needed_sym: BTreeSet<(usize, usize)> = c.progs.iter().flatten().filter(|q| !matches!(q.kind, Rk::File(_))).flat_map(|q| (0..c.nprov()).map(move |p| (p, q.m))).map(|(p, m)| (p, c.key(m))).collect();
+    let needed_file: BTreeSet<(usize, usize, u8)> = c
+        .progs
+        .iter()
+        .flatten()
+        .filter_map(|q| match q.kind {
+            Rk::File(fk) => Some((q.m, fk)),
+            _ => None,
+        })
+        .flat_map(|(m, fk)| (0..c.nprov()).map(move |p| (p, m, fk)))
+        .map(|(p, m, fk)| (p, c.key(m), fk))
+        .collect();
+    d.sym.retain(|k, _| needed_sym.contains(k));
+    d.file.retain(|k, _| needed_file.contains(k));
+    try_(&d, &mut c);
+    render_rcase(&c)
+}
+
+
+
+// =====================================================================================================
+// `HttpSymbolSupplier::locate_file_internal` (and `locate_symbols`) against a loopback server that counts
+// requests:  `once http x:<j|m> mods:.. urls:<n> tasks:.. srv:<k.<fk|s>=<u|n>:<0|1>,..>`
+// =====================================================================================================
+
+use breakpad_symbols::HttpSymbolSupplier;
+use std::io::{Read as _, Write as _};
+use std::sync::atomic::AtomicU64;
+
+static HTTP_RID: AtomicU64 = AtomicU64::new(0);
+
+struct HServer {
+    port: u16,
+    /// request target path (without query) -> body of the 200 answer; everything else is a 404
+    routes: Arc<Mutex<BTreeMap<String, Vec<u8>>>>,
+    /// request targets as received, in order of arrival
+    log: Arc<Mutex<Vec<String>>>,
+}
+
+fn hserve_one(mut s: std::net::TcpStream, routes: &Mutex<BTreeMap<String, Vec<u8>>>, log: &Mutex<Vec<String>>) {
+    let _ = s.set_nodelay(true);
+    let _ = s.set_read_timeout(Some(std::time::Duration::from_secs(20)));
+    let mut head = vec![];
+    let mut buf = [0u8; 2048];
+    while !head.windows(4).any(|w| w == b"\r\n\r\n") {
+        match s.read(&mut buf) {
+            Ok(0) | Err(_) => return,
+            Ok(n) => head.extend_from_slice(&buf[..n]),
+        }
+        if head.len() > 65536 {
+            return;
+        }
+    }
+    let text = String::from_utf8_lossy(&head).to_string();
+    let target = text.split(' ').nth(1).unwrap_or("").to_string();
+    log.lock().unwrap().push(target.clone());
+    let path = target.split('?').next().unwrap_or("").to_string();
+    let body = routes.lock().unwrap().get(&path).cloned();
+    // a little latency: the lookups of the other tasks arrive while this one is in flight
+    std::thread::sleep(std::time::Duration::from_micros(300));
+    let _ = match body {
+        Some(b) => s
+            .write_all(format!("HTTP/1.1 200 OK\r\nConnection: close\r\nContent-Type: text/plain\r\nContent-Length: {}\r\n\r\n", b.len()).as_bytes())
+            .and_then(|_| s.write_all(&b)),
+        None => s.write_all(b"HTTP/1.1 404 Not Found\r\nConnection: close\r\nContent-Length: 0\r\n\r\n"),
+    };
+    let _ = s.flush();
+    let _ = s.shutdown(std::net::Shutdown::Both);
+}
+
+impl HServer {
+    fn start() -> HServer {
+        let mut tries = 0;
+        let listener = loop {
+            match std::net::TcpListener::bind("127.0.0.1:0") {
+                Ok(l) => break l,
+                Err(e) => {
+                    tries += 1;
+                    if tries > 200 {
+                        panic!("bind loopback: {e:?}");
+                    }
+                    std::thread::sleep(std::time::Duration::from_millis(100));
+                }
+            }
+        };
+        let port = listener.local_addr().unwrap().port();
+        let routes = Arc::new(Mutex::new(BTreeMap::new()));
+        let log = Arc::new(Mutex::new(vec![]));
+        let (r2, l2) = (routes.clone(), log.clone());
+        std::thread::spawn(move || {
+            for conn in listener.incoming().flatten() {
+                let (r3, l3) = (r2.clone(), l2.clone());
+                std::thread::spawn(move || hserve_one(conn, &r3, &l3));
+            }
+        });
+        HServer { port, routes, log }
+    }
+}
+
+thread_local! {
+    /// one server per harness thread, alive for the whole run (requests of a case carry its run id)
+    static HSERVER: std::cell::RefCell<Option<Arc<HServer>>> = const { std::cell::RefCell::new(None) };
+}
+fn hserver() -> Arc<HServer> {
+    HSERVER.with(|s| s.borrow_mut().get_or_insert_with(|| Arc::new(HServer::start())).clone())
+}
+
+#[derive(Clone, Debug)]
+struct HCase {
+    mode: char,
+    mods: Vec<ModSpec>,
+    nurls: usize,
+    progs: Vec<Vec<Rq>>,
+    /// (key, kind 0..2 | 3 = symbols) -> (index of the first server answering 200, already in the cache dir)
+    srv: BTreeMap<(usize, u8), (Option<usize>, bool)>,
+}
+impl HCase {
+    fn key(&self, m: usize) -> usize {
+        let id = self.mods[m].ident();
+        self.mods.iter().position(|x| x.ident() == id).unwrap()
+    }
+    fn expect_ok(&self, k: usize, fk: u8) -> bool {
+        let (u, l) = self.srv[&(k, fk)];
+        l || u.map(|u| u < self.nurls).unwrap_or(false)
+    }
+}
+
+fn parse_hcase(case: &str) -> Option<HCase> {
+    let f: Vec<&str> = case.split(' ').filter(|s| !s.is_empty()).collect();
+    if f.len() != 7 || f[0] != "once" || f[1] != "http" {
+        return None;
+    }
+    let mode = match f[2].strip_prefix("x:")? {
+        "j" => 'j',
+        "m" => 'm',
+        _ => return None,
+    };
+    let mods: Vec<ModSpec> = f[3].strip_prefix("mods:")?.split(';').map(ModSpec::parse).collect::<Option<_>>()?;
+    let nurls: usize = f[4].strip_prefix("urls:")?.parse().ok()?;
+    let progs = parse_progs(f[5].strip_prefix("tasks:")?)?;
+    let mut srv = BTreeMap::new();
+    let st = f[6].strip_prefix("srv:")?;
+    if st != "-" {
+        for e in st.split(',') {
+            let (kk, v) = e.split_once('=')?;
+            let (k, fk) = kk.split_once('.')?;
+            let fk: u8 = if fk == "s" { 3 } else { fk.parse().ok().filter(|n| *n < 3)? };
+            let (u, l) = v.split_once(':')?;
+            let u = if u == "n" { None } else { Some(u.parse().ok()?) };
+            let l = match l {
+                "0" => false,
+                "1" => true,
+                _ => return None,
+            };
+            srv.insert((k.parse().ok()?, fk), (u, l));
+        }
+    }
+    let c = HCase { mode, mods, nurls, progs, srv };
+    for q in c.progs.iter().flatten() {
+        if q.m >= c.mods.len() {
+            return None;
+        }
+        let fk = match q.kind {
+            Rk::Fill => 3,
+            Rk::File(fk) => fk,
+            Rk::Walk => return None,
+        };
+        if !c.srv.contains_key(&(c.key(q.m), fk)) {
+            return None;
+        }
+    }
+    // every module needs the full identity: the lookup paths are built from all four components
+    if c.mods.iter().any(|m| !matches!(m.cf, Cf::Path(..)) || m.ci.is_none() || m.df.is_none() || m.di.is_none()) {
+        return None;
+    }
+    Some(c)
+}
+
+fn render_hcase(c: &HCase) -> String {
+    let srv = if c.srv.is_empty() {
+        "-".to_string()
+    } else {
+        c.srv
+            .iter()
+            .map(|((k, fk), (u, l))| {
+                format!(
+                    "{k}.{}={}:{}",
+                    if *fk == 3 { "s".to_string() } else { fk.to_string() },
+                    u.map(|u| u.to_string()).unwrap_or("n".into()),
+                    if *l { 1 } else { 0 }
+                )
+            })
+            .collect::<Vec<_>>()
+            .join(",")
+    };
+    format!(
+        "once http x:{} mods:{} urls:{} tasks:{} srv:{srv}",
+        c.mode,
+        c.mods.iter().map(|m| m.show()).collect::<Vec<_>>().join(";"),
+        c.nurls,
+        show_progs(&c.progs)
+    )
+}
+
+struct ArcSup(Arc<HttpSymbolSupplier>);
+#[async_trait]
+impl SymbolSupplier for ArcSup {
+    async fn locate_symbols(&self, module: &(dyn Module + Sync)) -> Result<LocateSymbolsResult, SymbolError> {
+        self.0.locate_symbols(module).await
+    }
+    async fn locate_file(&self, module: &(dyn Module + Sync), file_kind: FileKind) -> Result<PathBuf, FileError> {
+        self.0.locate_file(module, file_kind).await
+    }
+}
+
+struct HRunOut {
+    summary: String,
+    /// (task, request, key, kind, answer)
+    answers: Vec<(usize, usize, usize, u8, String)>,
+    /// (key, kind, url index) -> number of GETs
+    gets: BTreeMap<(usize, u8, usize), usize>,
+    unknown_targets: Vec<String>,
+    pend: (u64, u64),
+    done: bool,
+}
+
+fn hscratch() -> PathBuf {
+    let exe = std::env::current_exe().unwrap();
+    let d = exe.ancestors().nth(4).unwrap().join(".scratch/once").join(std::process::id().to_string());
+    std::fs::create_dir_all(&d).unwrap();
+    d
+}
+
+fn sym_body(m: &SimpleModule, k: usize) -> Vec<u8> {
+    format!(
+        "MODULE Linux x86 {} {}\nFUNC 1000 100 0 fn_http_k{k}\n",
+        m.debug_identifier().unwrap().breakpad(),
+        m.debug_file().unwrap()
+    )
+    .into_bytes()
+}
+
+fn hrun(c: &HCase) -> HRunOut {
+    let rid = HTTP_RID.fetch_add(1, Ordering::Relaxed);
+    let server = hserver();
+    let root = hscratch().join(format!("r{rid}"));
+    let (cache, tmp) = (root.join("cache"), root.join("tmp"));
+    std::fs::create_dir_all(&cache).unwrap();
+    std::fs::create_dir_all(&tmp).unwrap();
+    // routes and pre-seeded cache files
+    let mut rel_of: BTreeMap<String, (usize, u8)> = BTreeMap::new(); // server_rel -> (key, kind)
+    for ((k, fk), (u, l)) in &c.srv {
+        let m = c.mods[*k].build(None);
+        let lk = breakpad_symbols::lookup(&m, file_kind(if *fk == 3 { 0 } else { *fk })).expect("lookup");
+        let body = if *fk == 3 || *fk == 0 { sym_body(&m, *k) } else { format!("FILE k{k} kind{fk}\n").into_bytes() };
+        rel_of.insert(format!("{}#{}", lk.server_rel, if *fk == 3 { "s" } else { "f" }), (*k, *fk));
+        if let Some(u) = u {
+            if *u < c.nurls {
+                server.routes.lock().unwrap().insert(format!("/r{rid}u{u}/{}", lk.server_rel), body.clone());
+            }
+        }
+        if *l {
+            let p = cache.join(&lk.cache_rel);
+            std::fs::create_dir_all(p.parent().unwrap()).unwrap();
+            std::fs::write(&p, &body).unwrap();
+        }
+    }
+    let urls: Vec<String> = (0..c.nurls).map(|u| format!("http://127.0.0.1:{}/r{rid}u{u}/", server.port)).collect();
+    let rt: Arc<tokio::runtime::Runtime> = if c.mode == 'm' {
+        mt_runtime()
+    } else {
+        Arc::new(tokio::runtime::Builder::new_current_thread().enable_all().build().unwrap())
+    };
+    let sup = {
+        let _g = rt.enter();
+        Arc::new(HttpSymbolSupplier::new(urls, cache.clone(), tmp.clone(), vec![], std::time::Duration::from_secs(20)))
+    };
+    let symbolizer = Arc::new(Symbolizer::new(ArcSup(sup.clone())));
+    let answers: Arc<Mutex<Vec<(usize, usize, usize, u8, String)>>> = Arc::new(Mutex::new(vec![]));
+    let c2 = Arc::new(c.clone());
+    let body = |t: usize| {
+        let (c, sup, symbolizer, answers, cache) = (c2.clone(), sup.clone(), symbolizer.clone(), answers.clone(), cache.clone());
+        async move {
+            for (j, rq) in c.progs[t].iter().enumerate() {
+                let m = c.mods[rq.m].build(Some(format!("t{t}j{j}")));
+                let k = c.key(rq.m);
+                let (fk, out) = match rq.kind {
+                    Rk::File(fk) => {
+                        let want = breakpad_symbols::lookup(&m, file_kind(fk)).map(|l| cache.join(l.cache_rel));
+                        let out = match sup.locate_file_internal(&m, file_kind(fk)).await {
+                            Ok((path, _url)) => {
+                                if Some(&path) == want.as_ref() && path.is_file() {
+                                    "P0".to_string()
+                                } else {
+                                    format!("P?{}", path.display())
+                                }
+                            }
+                            Err(_) => "P-".to_string(),
+                        };
+                        (fk, out)
+                    }
+                    _ => {
+                        let mut f = SimpleFrame::with_instruction(0x1010);
+                        let out = match symbolizer.fill_symbol(&m, &mut f).await {
+                            Ok(()) if f.function.as_deref() == Some(&format!("fn_http_k{k}")) => "F0".to_string(),
+                            Ok(()) => format!("F?{:?}", f.function),
+                            Err(_) => "F-".to_string(),
+                        };
+                        (3, out)
+                    }
+                };
+                answers.lock().unwrap().push((t, j, k, fk, out));
+            }
+        }
+    };
+    let n = c.progs.len();
+    let done = if c.mode == 'j' {
+        rt.block_on(async {
+            let futs = (0..n).map(body);
+            tokio::time::timeout(std::time::Duration::from_secs(30), futures_util::future::join_all(futs)).await.is_ok()
+        })
+    } else {
+        let handles: Vec<_> = (0..n).map(|t| rt.spawn(body(t))).collect();
+        rt.block_on(async {
+            tokio::time::timeout(std::time::Duration::from_secs(30), futures_util::future::join_all(handles))
+                .await
+                .map(|rs| rs.iter().all(|r| r.is_ok()))
+                .unwrap_or(false)
+        })
+    };
+    // what the server saw of this run
+    let prefix = format!("/r{rid}u");
+    let mine: Vec<String> = {
+        let mut log = server.log.lock().unwrap();
+        let mine = log.iter().filter(|t| t.starts_with(&prefix)).cloned().collect();
+        log.retain(|t| !t.starts_with(&prefix));
+        mine
+    };
+    server.routes.lock().unwrap().retain(|k, _| !k.starts_with(&prefix));
+    let mut gets: BTreeMap<(usize, u8, usize), usize> = BTreeMap::new();
+    let mut unknown = vec![];
+    for t in &mine {
+        let rest = &t[prefix.len()..];
+        let (u, rel) = rest.split_once('/').unwrap_or((rest, ""));
+        let (path, query) = match rel.split_once('?') {
+            Some((p, _)) => (p, true),
+            None => (rel, false),
+        };
+        match (u.parse::<usize>().ok(), rel_of.get(&format!("{path}#{}", if query { "s" } else { "f" }))) {
+            (Some(u), Some((k, fk))) => *gets.entry((*k, *fk, u)).or_insert(0) += 1,
+            _ => unknown.push(t.clone()),
+        }
+    }
+    let ps = symbolizer.pending_stats();
+    let answers = answers.lock().unwrap().clone();
+    let outs = (0..n)
+        .map(|t| format!("{t}:{}", answers.iter().filter(|a| a.0 == t).map(|a| a.4.clone()).collect::<Vec<_>>().join(",")))
+        .collect::<Vec<_>>()
+        .join(";");
+    let mut per: BTreeMap<(usize, u8), Vec<String>> = BTreeMap::new();
+    for ((k, fk, u), nn) in &gets {
+        let status = if c.srv[&(*k, *fk)].0 == Some(*u) { 200 } else { 404 };
+        per.entry((*k, *fk)).or_default().push(format!("{u}={status}x{nn}"));
+    }
+    let gets_s = per
+        .iter()
+        .map(|((k, fk), v)| format!("{k}.{}:{}", if *fk == 3 { "s".to_string() } else { fk.to_string() }, v.join(",")))
+        .collect::<Vec<_>>()
+        .join(";");
+    let summary = format!(
+        " final fin={} pend={}/{} outs:{outs} gets:{gets_s}",
+        if done { 1 } else { 0 },
+        ps.symbols_requested,
+        ps.symbols_processed
+    );
+    drop(symbolizer);
+    drop(sup);
+    let _ = std::fs::remove_dir_all(&root);
+    HRunOut { summary, answers, gets, unknown_targets: unknown, pend: (ps.symbols_requested, ps.symbols_processed), done }
+}
+
+fn horacle(c: &HCase, r: &HRunOut) -> Vec<(String, String)> {
+    let mut o = vec![];
+    // at most one request sequence per (module, file kind): no server is asked twice for one file
+    for ((k, fk, u), n) in &r.gets {
+        if *n > 1 {
+            o.push(("http-requested-twice".into(), format!("server {u} got {n} GETs for module {k} kind {}", if *fk == 3 { "symbols".to_string() } else { fk.to_string() })));
+        }
+    }
+    for t in &r.unknown_targets {
+        o.push(("http-unexpected-request".into(), t.clone()));
+    }
+    if !r.done {
+        o.push(("lost-wakeup-or-hang".into(), "the lookups did not finish within 30 s".into()));
+        return o;
+    }
+    // same result for all requesters of one file, failures included: the one the servers determine
+    let mut per: BTreeMap<(usize, u8), Vec<(usize, String)>> = BTreeMap::new();
+    for (t, _, k, fk, out) in &r.answers {
+        per.entry((*k, *fk)).or_default().push((*t, out.clone()));
+    }
+    for ((k, fk), v) in &per {
+        if let Some(other) = v.iter().find(|x| x.1 != v[0].1) {
+            o.push(("outcomes-disagree".into(), format!("module {k} kind {fk}: task {} got {} but task {} got {}", v[0].0, v[0].1, other.0, other.1)));
+        }
+        let ok = c.expect_ok(*k, *fk);
+        if let Some(bad) = v.iter().find(|x| x.1.ends_with('-') == ok || x.1.contains('?')) {
+            o.push(("wrong-outcome".into(), format!("module {k} kind {fk}: the file is {} but task {} got {}", if ok { "available" } else { "nowhere" }, bad.0, bad.1)));
+        }
+    }
+    let asked: BTreeSet<usize> = c.progs.iter().flatten().filter(|q| q.kind == Rk::Fill).map(|q| c.key(q.m)).collect();
+    if r.pend != (asked.len() as u64, asked.len() as u64) {
+        o.push(("final-counters".into(), format!("requested={} processed={} distinct modules asked for={}", r.pend.0, r.pend.1, asked.len())));
+    }
+    let total: usize = c.progs.iter().map(|p| p.len()).sum();
+    if r.answers.len() != total {
+        o.push(("request-lost".into(), format!("{} requests, {} answers", total, r.answers.len())));
+    }
+    o
+}
+
+fn hexec_case(c: &HCase) -> ImplResult {
+    let mut res = ImplResult::default();
+    let r = match catch(|| hrun(c)) {
+        Ok(r) => r,
+        Err(msg) => {
+            res.out = "PANIC".into();
+            res.oracle.push(("panic".into(), msg));
+            return res;
+        }
+    };
+    res.out = r.summary.clone();
+    res.oracle = horacle(c, &r);
+    let mut users: BTreeMap<(usize, u8), usize> = BTreeMap::new();
+    for (_, _, k, fk, _) in &r.answers {
+        *users.entry((*k, *fk)).or_insert(0) += 1;
+    }
+    res.nontrivial = users.values().any(|n| *n >= 2) && !r.gets.is_empty();
+    res.tags.push(format!("http-exec:{}", c.mode));
+    res.tags.push(format!("http-urls:{}", c.nurls));
+    for ((_, fk), (u, l)) in &c.srv {
+        res.tags.push(format!("http-kind:{}", if *fk == 3 { "symbols".to_string() } else { fk.to_string() }));
+        res.tags.push(format!("http-file:{}", if *l { "in-cache" } else if u.map(|u| u < c.nurls).unwrap_or(false) { "served" } else { "nowhere" }));
+    }
+    res.tags.sort();
+    res.tags.dedup();
+    res
+}
+
+fn hshrink(case: &str, still_fails: &dyn Fn(&str) -> bool) -> String {
+    let Some(mut c) = parse_hcase(case) else { return case.to_string() };
+    let try_ = |d: &HCase, c: &mut HCase| -> bool {
+        let line = render_hcase(d);
+        if parse_hcase(&line).is_some() && still_fails(&line) {
+            *c = d.clone();
+            true
+        } else {
+            false
+        }
+    };
+    let mut progress = true;
+    while progress {
+        progress = false;
+        for t in 0..c.progs.len() {
+            let mut i = 0;
+            while i < c.progs[t].len() {
+                let mut d = c.clone();
+                d.progs[t].remove(i);
+                if try_(&d, &mut c) {
+                    progress = true;
+                } else {
+                    i += 1;
+                }
+            }
+        }
+        let mut t = 0;
+        while c.progs.len() > 1 && t < c.progs.len() {
+            if c.progs[t].is_empty() {
+                let mut d = c.clone();
+                d.progs.remove(t);
+                if try_(&d, &mut c) {
+                    progress = true;
+                    continue;
+                }
+            }
+            t += 1;
+        }
+        if c.nurls > 0 {
+            let mut d = c.clone();
+            d.nurls -= 1;
+            if try_(&d, &mut c) {
+                progress = true;
+            }
+        }
+        if c.mode == 'm' {
+            let mut d = c.clone();
+            d.mode = 'j';
+            if try_(&d, &mut c) {
+                progress = true;
+            }
+        }
+    }
+    let used: BTreeSet<(usize, u8)> = c
+        .progs
+        .iter()
+        .flatten()
+        .map(|q| (c.key(q.m), match q.kind { Rk::File(fk) => fk, _ => 3 }))
+        .collect();
+    let mut d = c.clone();
+    d.srv.retain(|k, _| used.contains(k));
+    try_(&d, &mut c);
+    render_hcase(&c)
+}
+
+fn gen_http(tier: Tier, rng: &mut Rng, emit: &mut dyn FnMut(String)) {
+    let n = if tier == Tier::Quick { 500 } else { 12_000 };
+    for i in 0..n {
+        let nm = rng.range(1, 3) as usize;
+        let mut mods: Vec<ModSpec> = (0..nm).map(|m| mod_plain(m as u64)).collect();
+        if rng.chance(1, 3) {
+            // the same module again under another index: same key, same slot
+            let d = mods[rng.below(nm as u64) as usize].clone();
+            mods.push(d);
+        }
+        let nurls = rng.range(0, 3) as usize;
+        let nt = rng.range(2, 5) as usize;
+        // per key: either symbol lookups or BreakpadSym file lookups, never both (they share the cached file)
+        let sym_keys: Vec<bool> = (0..mods.len()).map(|_| rng.chance(1, 3)).collect();
+        let c0 = HCase { mode: if i % 3 == 0 { 'm' } else { 'j' }, mods, nurls, progs: vec![], srv: BTreeMap::new() };
+        let progs: Vec<Vec<Rq>> = (0..nt)
+            .map(|_| {
+                (0..rng.range(1, 3))
+                    .map(|_| {
+                        let m = rng.below(c0.mods.len() as u64) as usize;
+                        if sym_keys[c0.key(m)] && rng.chance(1, 2) {
+                            Rq { kind: Rk::Fill, m }
+                        } else {
+                            let fk = if sym_keys[c0.key(m)] { rng.range(1, 2) } else { rng.below(3) } as u8;
+                            Rq { kind: Rk::File(fk), m }
+                        }
+                    })
+                    .collect()
+            })
+            .collect();
+        let mut c = HCase { progs, ..c0 };
+        for q in c.progs.clone().iter().flatten() {
+            let fk = match q.kind {
+                Rk::Fill => 3,
+                Rk::File(fk) => fk,
+                Rk::Walk => continue,
+            };
+            let k = c.key(q.m);
+            c.srv.entry((k, fk)).or_insert_with(|| {
+                let u = match rng.below(4) {
+                    0 => None,
+                    _ => Some(rng.below(3) as usize),
+                };
+                (u, rng.chance(1, 6))
+            });
+        }
+        emit(render_hcase(&c));
+    }
+}
+
+// ------------------------------------------------------------------------------- generators (`once req`)
+
+fn mod_plain(i: u64) -> ModSpec {
+    ModSpec { cf: Cf::Path(0, i), ci: Some(i), df: Some(i), di: Some(i) }
+}
+
+/// fill the supplier tables for every (provider, key) a request of `progs` can consult
+fn fill_tables(
+    c: &mut RCase,
+    sym_of: &mut dyn FnMut(usize, usize) -> (u32, SRes),
+    file_of: &mut dyn FnMut(usize, usize, u8) -> (u32, bool),
+) {
+    let np = c.nprov();
+    let reqs: Vec<Rq> = c.progs.iter().flatten().copied().collect();
+    for q in reqs {
+        let k = c.key(q.m);
+        for p in 0..np {
+            match q.kind {
+                Rk::File(fk) => {
+                    if !c.file.contains_key(&(p, k, fk)) {
+                        let v = file_of(p, k, fk);
+                        c.file.insert((p, k, fk), v);
+                    }
+                }
+                _ => {
+                    if !c.sym.contains_key(&(p, k)) {
+                        let mut v = sym_of(p, k);
+                        if c.leaf_shared(k) {
+                            // failures of modules sharing a leaf name cannot be told apart from outside
+                            v.1 = match v.1 {
+                                SRes::On => SRes::Ok,
+                                SRes::Pe => SRes::Nf,
+                                x => x,
+                            };
+                            // with an unknown completion order (runtime executors) the statistics entry of a
+                            // shared leaf depends on the schedule when the outcomes differ (finding F16, owned
+                            // by C13): there the modules of one leaf get one outcome
+                            if c.mode == 'j' || c.mode == 'm' {
+                                let leaf = c.mods[k].leaf();
+                                if let Some(r) = c.sym.iter().find(|((q, k2), _)| *q == p && c.mods[*k2].leaf() == leaf).map(|(_, v)| v.1) {
+                                    v.1 = r;
+                                }
+                            }
+                        }
+                        c.sym.insert((p, k), v);
+                    }
+                }
+            }
+        }
+    }
+}
+
+/// upper bound of the polls a fair completion needs (one per item and suspension), plus slack
+fn rsched_len(c: &RCase, slack: usize, cap: usize) -> usize {
+    let np = c.nprov().max(1);
+    let mut n = 0usize;
+    for q in c.progs.iter().flatten() {
+        n += np;
+        let k = c.key(q.m);
+        for p in 0..c.nprov() {
+            n += match q.kind {
+                Rk::File(fk) => c.file[&(p, k, fk)].0 as usize,
+                _ => 0,
+            };
+        }
+    }
+    let keys: BTreeSet<(usize, usize)> = c.sym.keys().copied().collect();
+    n += keys.iter().map(|k| c.sym[k].0 as usize).sum::<usize>();
+    (n + slack).min(cap)
+}
+
+fn gen_req(tier: Tier, rng: &mut Rng, emit: &mut dyn FnMut(String)) {
+    let quick = tier == Tier::Quick;
+    let f = |m| Rq { kind: Rk::Fill, m };
+    let w = |m| Rq { kind: Rk::Walk, m };
+    let g = |fk, m| Rq { kind: Rk::File(fk), m };
+    // ---- (A) exhaustive: 2 tasks, all poll sequences, every request kind, 1 (bare / wrapped) and 2 providers
+    let pool: Vec<(Vec<Rq>, Vec<Rq>)> = vec![
+        (vec![w(0)], vec![w(0)]),
+        (vec![f(0)], vec![w(0)]),
+        (vec![w(0)], vec![f(0), w(0)]),
+        (vec![g(1, 0)], vec![g(1, 0)]),
+        (vec![f(0), g(0, 0)], vec![g(0, 0), w(0)]),
+        (vec![w(0), f(1)], vec![f(1), w(0)]),
+        (vec![g(2, 1), w(0)], vec![w(0), g(2, 1)]),
+        (vec![f(0), f(0)], vec![w(0)]),
+    ];
+    let sym_profiles: [[SRes; 4]; 6] = [
+        // [p0 key a, p1 key a, p0 key b, p1 key b]
+        [SRes::Ok, SRes::Ok, SRes::Nf, SRes::Ok],
+        [SRes::On, SRes::Ok, SRes::Pe, SRes::Nf],
+        [SRes::Nf, SRes::Ok, SRes::Ok, SRes::Pe],
+        [SRes::Pe, SRes::On, SRes::On, SRes::On],
+        [SRes::Nf, SRes::Nf, SRes::Ok, SRes::Ok],
+        [SRes::Ok, SRes::Nf, SRes::Nf, SRes::Pe],
+    ];
+    let mut n_cfg = 0usize;
+    for provs in ["U", "u", "uu"] {
+        for (pa, pb) in &pool {
+            for prof in 0..(if provs == "uu" { 6 } else { 3 }) {
+                for delays in 0..3u32 {
+                    n_cfg += 1;
+                    let mut c = RCase {
+                        mode: 'a',
+                        provs: provs.to_string(),
+                        mods: vec![mod_plain(0), mod_plain(1)],
+                        progs: vec![pa.clone(), pb.clone()],
+                        sym: BTreeMap::new(),
+                        file: BTreeMap::new(),
+                        sched: vec![],
+                    };
+                    let sp = sym_profiles[(prof + n_cfg) % 6];
+                    fill_tables(
+                        &mut c,
+                        &mut |p, k| ((delays + (p + k) as u32) % 3 % (delays + 1), sp[(k % 2) * 2 + p % 2]),
+                        &mut |p, k, fk| ((delays + p as u32 + fk as u32) % 2 % (delays + 1), (p + k + fk as usize + prof) % 2 == 0),
+                    );
+                    let len = rsched_len(&c, 1, if quick { 9 } else { 11 });
+                    all_seqs(2, len, &mut |s| {
+                        let mut d = c.clone();
+                        d.sched = s.to_vec();
+                        emit(render_rcase(&d));
+                    });
+                }
+            }
+        }
+    }
+    // ---- (B) module identity: every subset of the four components differing, in every way a component can
+    //          differ; the two modules are looked up by two tasks through every request kind
+    let bases = [
+        ModSpec { cf: Cf::Path(0, 0), ci: Some(0), df: Some(0), di: Some(0) },
+        // every component present but EMPTY ("" / nil id), and every component missing
+        ModSpec { cf: Cf::Empty, ci: Some(EMPTY), df: Some(EMPTY), di: Some(EMPTY) },
+        ModSpec { cf: Cf::Absent, ci: None, df: None, di: None },
+    ];
+    let cf_alts = [Cf::Path(0, 1), Cf::Path(1, 0), Cf::Empty, Cf::Absent];
+    let opt_alts = [Some(1u64), None, Some(EMPTY)];
+    let mut variants: Vec<(ModSpec, ModSpec)> = vec![];
+    for base in &bases {
+        for mask in 0..16u32 {
+            for alt in 0..4usize {
+                let mut b = base.clone();
+                if mask & 1 != 0 {
+                    b.cf = cf_alts[alt].clone();
+                }
+                if mask & 2 != 0 {
+                    b.ci = opt_alts[alt % 3];
+                }
+                if mask & 4 != 0 {
+                    b.df = opt_alts[(alt + 1) % 3];
+                }
+                if mask & 8 != 0 {
+                    b.di = opt_alts[(alt + 2) % 3];
+                }
+                variants.push((base.clone(), b));
+            }
+        }
+    }
+    let base = bases[0].clone();
+    // a module without a code file and one whose code file is the empty string: the SAME module for the code
+    variants.push((ModSpec { cf: Cf::Absent, ..base.clone() }, ModSpec { cf: Cf::Empty, ..base.clone() }));
+    variants.push((ModSpec { cf: Cf::Empty, ci: None, df: None, di: None }, ModSpec { cf: Cf::Absent, ci: None, df: None, di: None }));
+    variants.push((ModSpec { cf: Cf::Absent, ci: None, df: None, di: None }, ModSpec { cf: Cf::Absent, ci: None, df: Some(0), di: None }));
+    for (vi, (a, b)) in variants.iter().enumerate() {
+        for provs in ["U", "uu"] {
+            for (si, sched) in [vec![], vec![0, 1, 0, 1, 0, 1, 1, 0], vec![1, 1, 0, 0, 1, 0]].iter().enumerate() {
+                let mut c = RCase {
+                    mode: if si == 0 { 'j' } else { 'a' },
+                    provs: provs.to_string(),
+                    mods: vec![a.clone(), b.clone()],
+                    progs: vec![vec![f(0), w(1), g(((vi + si) % 3) as u8, 1)], vec![w(1), f(0), f(1)]],
+                    sym: BTreeMap::new(),
+                    file: BTreeMap::new(),
+                    sched: sched.clone(),
+                };
+                fill_tables(
+                    &mut c,
+                    &mut |p, k| (((vi + si + p) % 3) as u32, [SRes::Ok, SRes::Nf, SRes::On, SRes::Pe][(vi + k * 3 + p + si) % 4]),
+                    &mut |p, k, fk| (((vi + p) % 2) as u32, (vi + p + k + fk as usize) % 3 != 0),
+                );
+                emit(render_rcase(&c));
+            }
+        }
+    }
+    // ---- (C) random: 2..4 tasks x 1..3 requests x 1..4 modules x 0..3 providers, all executors
+    let n = if quick { 40_000 } else { 1_500_000 };
+    for i in 0..n {
+        let nt = rng.range(2, 4) as usize;
+        let nm = rng.range(1, 4) as usize;
+        let mut mods: Vec<ModSpec> = vec![];
+        for m in 0..nm {
+            let r = rng.below(10);
+            let spec = if m > 0 && r == 0 {
+                mods[rng.below(m as u64) as usize].clone() // the same module again
+            } else if m > 0 && r <= 2 {
+                // an identity variant of an earlier module: one component changed
+                let mut b = mods[rng.below(m as u64) as usize].clone();
+                match rng.below(4) {
+                    0 => b.cf = rng.pick(&[Cf::Path(0, 7), Cf::Path(3, m as u64), Cf::Empty, Cf::Absent]).clone(),
+                    1 => b.ci = *rng.pick(&[Some(9), None, Some(EMPTY)]),
+                    2 => b.df = *rng.pick(&[Some(9), None, Some(EMPTY)]),
+                    _ => b.di = *rng.pick(&[Some(9), None, Some(EMPTY)]),
+                }
+                b
+            } else {
+                mod_plain(m as u64)
+            };
+            mods.push(spec);
+        }
+        let provs = match rng.below(12) {
+            0 => "",
+            1..=3 => "U",
+            4..=5 => "u",
+            6..=9 => "uu",
+            _ => "uuu",
+        };
+        let maxd = rng.range(0, 3) as u32;
+        let progs: Vec<Vec<Rq>> = (0..nt)
+            .map(|_| {
+                let l = rng.range(1, 3);
+                (0..l)
+                    .map(|_| {
+                        let m = rng.below(nm as u64) as usize;
+                        match rng.below(8) {
+                            0..=3 => f(m),
+                            4..=5 => w(m),
+                            _ => g(rng.below(3) as u8, m),
+                        }
+                    })
+                    .collect()
+            })
+            .collect();
+        let mode = match i % 16 {
+            0 => 'j',
+            1 => 'm',
+            2..=5 => 'w',
+            _ => 'a',
+        };
+        let mut c = RCase { mode, provs: provs.to_string(), mods, progs, sym: BTreeMap::new(), file: BTreeMap::new(), sched: vec![] };
+        let mut r2 = rng.fork();
+        let mut r3 = rng.fork();
+        fill_tables(
+            &mut c,
+            &mut |_, _| (r2.range(0, maxd as u64) as u32, *r2.pick(&[SRes::Ok, SRes::Ok, SRes::On, SRes::Nf, SRes::Nf, SRes::Pe])),
+            &mut |_, _, _| (r3.range(0, maxd as u64) as u32, r3.chance(1, 2)),
+        );
+        let total = rsched_len(&c, 0, 1000);
+        c.sched = match mode {
+            'j' | 'm' => vec![],
+            'w' => (0..rng.range(0, 2 * total as u64)).map(|_| rng.below(4)).collect(),
+            _ => {
+                let len = rng.range(0, 3 * total as u64);
+                let hammer = rng.below(nt as u64);
+                let bias = rng.below(3);
+                (0..len)
+                    .map(|_| {
+                        if bias == 0 && rng.chance(1, 2) {
+                            hammer
+                        } else if rng.chance(1, 50) {
+                            nt as u64
+                        } else {
+                            rng.below(nt as u64)
+                        }
+                    })
+                    .collect()
+            }
+        };
+        emit(render_rcase(&c));
+    }
+    // ---- (D) multi-thread smoke run: more tasks, more contention, 4 workers polling in parallel
+    let n = if quick { 1_500 } else { 40_000 };
+    for _ in 0..n {
+        let nt = rng.range(4, 8) as usize;
+        let nm = rng.range(1, 3) as usize;
+        let mods: Vec<ModSpec> = (0..nm).map(|m| mod_plain(m as u64)).collect();
+        let provs = *rng.pick(&["U", "u", "uu", "uu"]);
+        let progs: Vec<Vec<Rq>> = (0..nt)
+            .map(|_| {
+                (0..rng.range(1, 4))
+                    .map(|_| {
+                        let m = rng.below(nm as u64) as usize;
+                        match rng.below(8) {
+                            0..=3 => f(m),
+                            4..=6 => w(m),
+                            _ => g(rng.below(3) as u8, m),
+                        }
+                    })
+                    .collect()
+            })
+            .collect();
+        let mut c = RCase { mode: 'm', provs: provs.to_string(), mods, progs, sym: BTreeMap::new(), file: BTreeMap::new(), sched: vec![] };
+        let mut r2 = rng.fork();
+        let mut r3 = rng.fork();
+        fill_tables(
+            &mut c,
+            &mut |_, _| (r2.range(1, 4) as u32, *r2.pick(&[SRes::Ok, SRes::Ok, SRes::On, SRes::Nf, SRes::Pe])),
+            &mut |_, _, _| (r3.range(0, 2) as u32, r3.chance(1, 2)),
+        );
+        emit(render_rcase(&c));
+    }
+}
+
 impl Engine for Once {
     fn name(&self) -> &'static str {
         "once"
     }
     fn rule(&self) -> String {
-        "case = (executor, one program of module keys per task, supplier table key -> (suspensions, outcome), poll schedule). Exhaustive part: ALL poll sequences (leaves of the prefix-closed tree; the trace is compared after every poll, so every prefix is covered) of length 2*lookups+suspensions (2 tasks, capped at 11 quick / 12 thorough) resp. lookups+suspensions+3|4 (3 tasks, capped at 8 / 9) for 2 tasks x <=2 lookups x <=2 keys x <=2 suspensions and 3 tasks x 1 lookup x 2 keys x <=1 suspension, arbitrary-poll executor; random part: 2..4 tasks x 1..3 lookups x 1..3 keys x 0..3 suspensions x outcomes ok/nf/pe under the arbitrary-poll executor (random schedules with spurious polls), the waker-respecting executor (random choices among woken tasks) and join_all on a tokio runtime. non-trivial = at least two tasks ask for a common key and at least one poll found the lock taken (blocked poll) or the run used >= 2 tasks with a suspending supplier; distinct = distinct case line".into()
+        "[run] case = (executor, one program of module keys per task, supplier table key -> (suspensions, outcome), poll schedule). Exhaustive part: ALL poll sequences (leaves of the prefix-closed tree; the trace is compared after every poll, so every prefix is covered) of length 2*lookups+suspensions (2 tasks, capped at 11 quick / 12 thorough) resp. lookups+suspensions+3|4 (3 tasks, capped at 8 / 9) for 2 tasks x <=2 lookups x <=2 keys x <=2 suspensions and 3 tasks x 1 lookup x 2 keys x <=1 suspension, arbitrary-poll executor; random part: 2..4 tasks x 1..3 lookups x 1..3 keys x 0..3 suspensions x outcomes ok/nf/pe under the arbitrary-poll executor (random schedules with spurious polls), the waker-respecting executor (random choices among woken tasks) and join_all on a tokio runtime. [req] case = (executor, module table of identities (code file absent/empty/path, code id, debug file, debug id, each possibly None), 0..3 providers = real Symbolizers over mock suppliers behind a real MultiSymbolProvider (or one bare Symbolizer), one program of requests per task: fill_symbol / walk_frame / get_file_path(kind) on a module, per provider locate_symbols table (suspensions, ok-with-CFI / ok-without-CFI / NotFound / ParseError) and locate_file table, poll schedule); compared after every poll: supplier calls and returns, what every provider answered to which request, the combined answers, pending_stats() of every provider and of the MultiSymbolProvider, wake and finished flags; at the end also stats() of every provider and the merged one. Exhaustive part: ALL poll sequences up to the completion length (cap 9 quick / 11 thorough) of 2 tasks over 8 request-program pairs x {bare, 1, 2 providers} x outcome profiles x suspension profiles; module identity: every subset of the four components differing in every way (value, None vs Some, absent vs empty code file) x {bare, 2 providers} x 4 schedules; random: 2..4 tasks x 1..3 requests x 1..4 modules (same-key duplicates, one-component variants, shared leaf names) x 0..3 providers x executors a/w/j/m; multi-thread smoke run: 4..8 tasks spawned on a tokio multi-thread runtime with 4 workers, suspending suppliers that keep the lock ~30us per suspension (final summary and oracle only: SAMPLING of real parallel polls). [http] case = (executor j/m, module table, 0..3 server URLs, request programs of locate_file_internal(kind) / fill_symbol, per (module key, kind) which server answers 200 and whether the file is already in the cache directory): final answers, pending_stats and the per-server GET counts are compared. non-trivial = at least two tasks ask for a common key and at least one poll found the lock taken (blocked poll), or a runtime executor ran >= 2 such tasks with a suspending supplier / real HTTP; distinct = distinct case line".into()
     }
     fn exhaustive_part(&self) -> Option<String> {
-        Some("all poll sequences (task ids incl. spurious polls) up to the length bound for every configuration of 2 tasks x <=2 lookups x <=2 keys x <=2 suspensions (up to task/key symmetry) and 3 tasks x 1 lookup x 2 keys x <=1 suspension, compared with the model after every poll".into())
+        Some("all poll sequences (task ids incl. spurious polls) up to the length bound for every configuration of 2 tasks x <=2 lookups x <=2 keys x <=2 suspensions (up to task/key symmetry) and 3 tasks x 1 lookup x 2 keys x <=1 suspension [run]; all poll sequences up to the completion length of 2 tasks over 8 program pairs mixing fill_symbol / walk_frame / get_file_path x {bare Symbolizer, MultiSymbolProvider with 1 and 2 providers} x outcome and suspension profiles [req]; all 16 subsets of differing identity components [req]; each compared with the model after every poll".into())
     }
 
     fn generate(&self, tier: Tier, rng: &mut Rng, emit: &mut dyn FnMut(String)) {
@@ -787,9 +2900,14 @@ impl Engine for Once {
             };
             emit(fmt_cfg(&progs, &sup, mode, sched));
         }
+        gen_req(tier, rng, emit);
+        gen_http(tier, rng, emit);
     }
 
     fn model_request(&self, case: &str) -> Option<String> {
+        if case.starts_with("once req ") || case.starts_with("once http ") {
+            return Some(case.to_string());
+        }
         // the model knows keys, not how a module's identity is spelled: it gets the case without the variant
         let mut c = parse_case(case)?;
         c.variant = '0';
@@ -798,6 +2916,24 @@ impl Engine for Once {
 
     fn exec(&self, case: &str) -> ImplResult {
         let mut res = ImplResult::default();
+        if case.starts_with("once req ") {
+            return match parse_rcase(case) {
+                Some(c) => rexec_case(&c),
+                None => {
+                    res.out = "bad-op".into();
+                    res
+                }
+            };
+        }
+        if case.starts_with("once http ") {
+            return match parse_hcase(case) {
+                Some(c) => hexec_case(&c),
+                None => {
+                    res.out = "bad-op".into();
+                    res
+                }
+            };
+        }
         let Some(c) = parse_case(case) else {
             res.out = "bad-op".into();
             return res;
@@ -842,6 +2978,12 @@ impl Engine for Once {
     }
 
     fn shrink(&self, case: &str, still_fails: &dyn Fn(&str) -> bool) -> String {
+        if case.starts_with("once req ") {
+            return rshrink(case, still_fails);
+        }
+        if case.starts_with("once http ") {
+            return hshrink(case, still_fails);
+        }
         let Some(mut c) = parse_case(case) else { return case.to_string() };
         let mut progress = true;
         while progress {
